@@ -41,6 +41,8 @@ O_COOKIE = [None, "c=9; d=10"]
 O_HEADER = [None, ["X-One: 1", "X-Two: two words"], {"X-One": "1", "X-Two": "two words"}, {"X-One": "1", "X-None": None},
             {"X-One": "1", "X-Empty": "", "X-None": None, "X-Zero": "0"}, ["X-Empty: ", "X-Zero: 0"],
             ["X-Dup: 1", "X-Other: o", "X-Dup: 2", "x-dup: 3"], {"Accept-Language": "en", "accept-language": "de"},
+            {"Sec-WebSocket-Key": "AQIDBAUGBwgJCgsMDQ4PEA=="}, ["Sec-WebSocket-Key: AQIDBAUGBwgJCgsMDQ4PEA==", "X-One: 1"], {"sec-websocket-key": "AQIDBAUGBwgJCgsMDQ4PEA==", "Sec-WebSocket-Version": "13"},
+            ["sec-websocket-version: 13"], {"Sec-WebSocket-Key": None, "X-One": "1"},
             ["X-Forwarded-Host: a.example", "X-Note: upstream host: unknown, origin: none, upgrade: no, connection: close"], {"X-Real-Host": "r", "X-Origin": "o", "X-Cookie": "c"}]
 O_CONN = [None, "Connection: keep-alive, Upgrade"]
 
@@ -203,7 +205,14 @@ def check_request(raw, u, o, draws, label):
         return bad("host", "Host is %r, expected %r" % (h.get("host"), [want_host]))
     if [v.lower() for v in h.get("upgrade", [])] != ["websocket"]:
         return bad("upgrade", "Upgrade is %r" % h.get("upgrade"))
-    if h.get("sec-websocket-version") != ["13"]:
+    # a key / version the caller supplies through the header option (dict or list form, any letter case) stands in for the library's own
+    own = {}
+    if o_header is not None:
+        its = [tuple(x.split(":", 1)) for x in o_header] if isinstance(o_header, list) else [(k, v) for k, v in o_header.items() if v is not None]
+        for k, v in its:
+            if k.strip().lower() in ("sec-websocket-key", "sec-websocket-version"):
+                own.setdefault(k.strip().lower(), v.strip())
+    if h.get("sec-websocket-version") != [own.get("sec-websocket-version", "13")]:
         return bad("version", "Sec-WebSocket-Version is %r" % h.get("sec-websocket-version"))
     conn = h.get("connection", [])
     if o_conn is None:
@@ -216,7 +225,10 @@ def check_request(raw, u, o, draws, label):
     if len(keys) != 1:
         return bad("key", "Sec-WebSocket-Key headers: %r" % keys)
     d16 = [d for d in draws if len(d) == 16]
-    if len(d16) != 1 or base64.b64encode(d16[0]).decode() != keys[0] or len(draws) != 1:
+    if "sec-websocket-key" in own:
+        if keys != [own["sec-websocket-key"]]:
+            return bad("key", "the caller supplied the key %r, the request carries %r" % (own["sec-websocket-key"], keys))
+    elif len(d16) != 1 or base64.b64encode(d16[0]).decode() != keys[0] or len(draws) != 1:
         return bad("key", "key %r is not the base64 of one fresh 16-byte OS-randomness draw (draws: %r)" % (keys[0], [d.hex() for d in draws]))
     origin = h.get("origin")
     if o_supp:
@@ -248,13 +260,14 @@ def check_request(raw, u, o, draws, label):
                 return bad("custom-header", "custom header %s: %s missing" % (k, v))
         if isinstance(o_header, dict):
             for k, v in o_header.items():
-                if v is None and k.lower() in h:
+                if v is None and k.lower() in h and k.lower() not in ("sec-websocket-key", "sec-websocket-version"):
                     return bad("custom-header", "header %s with value None was sent" % k)
     known = {"host", "upgrade", "connection", "sec-websocket-key", "sec-websocket-version", "origin", "sec-websocket-protocol", "cookie"}
     extra = [k for k, v in req["headers"] if k.lower() not in known]
     want_extra = []
     if o_header is not None:
         want_extra = [x.split(": ", 1)[0] for x in o_header] if isinstance(o_header, list) else [k for k, v in o_header.items() if v is not None]
+    want_extra = [k for k in want_extra if k.strip().lower() not in known]
     if sorted(extra) != sorted(want_extra):
         return bad("unexpected-header", "unexpected headers %r (custom: %r)" % (extra, want_extra))
     for name in ("host", "upgrade", "sec-websocket-version", "sec-websocket-key"):
